@@ -13,6 +13,11 @@ CHECKS = {
             "Every unordered pair of 13 real writer/reader operations (message, run spawned/ended, side effects, cursor set/rotate, selection decided, manual/auto/scheduled compaction, branch, handoff, reader replay) on one shared thread, from a warm, a restarted and a restarted-cache-less store, plus sessions and linked runs sharing the log writer, is explored over all interleavings at lock / publish / cache / log-effect hooks with <=1 (quick) / <=2-3 (thorough, plus triples) preemptions; at quiescence a fresh EventLog must pass validated replay, every stream must read 0..n-1 in file order, every acknowledged id must appear once, and the same after a restart plus one more append per thread.",
             "2-3 actors, one op each; scheduling granularity = hook points (critical sections are the real ones: predicates read the real locks); preemption bound; histories crossing several restarts are covered by C05/C04.",
             "DESIGN.md §3 C01"),
+    "C02": ("H-histories", "exploration",
+            "bounded exhaustive enumeration of write histories on the real store; byte-prefix / whole-line oracle after every step; the read-only call set over its parameter domain in every reached state",
+            "Every history of <=3 (quick) / <=4 (thorough) ops over a 16-op alphabet (incl. refused checkpoints, drop caches, restart) is executed; after every step the previous log bytes must be a prefix of the new ones and the suffix whole newline-terminated JSON frames with the envelope keys, every other changed file must be a cache / snapshot / workspace .rip file; in every reached state ~150 read-only, dry-run, nothing-plannable, stride-0 and unknown/hostile-thread-id calls (store API and GET routes incl. the three SSE handlers and /config/doctor) must add zero bytes, again with caches dropped and after restart.",
+            "Depth bound; the SSE bodies are not polled (attach only); frames logged by failing operations are not judged; task/session write paths are covered by C01/C07.",
+            "DESIGN.md §3 C02"),
     "C04": ("H-histories", "fault_enumeration",
             "bounded exhaustive enumeration of histories x single cache faults x read capabilities; differential oracle (fault applied vs cache directory removed) on fresh authorities; watchdog for termination",
             "For every history of <=3 (quick) / <=4 (thorough) ops plus window-crossing threads (600 / 10 001 dense frames, 300 KiB and 3x3 MiB messages, 18 messages) every single fault {delete, truncate to 0 / 1 byte / mid-record / last line boundary / half, equal-length garbage, roll-back to the content after each earlier op} is applied to every cache file of the thread; a fresh authority must then answer replay, cut points, compaction status, cursor status, selection status and the compiled context for every message anchor exactly like a fresh authority on the same store without caches, again after one more append, and validated replay must still hold; every step runs under a 25 s watchdog.",
